@@ -42,24 +42,24 @@ TYPES = {
 }
 
 # role -> type, per variant.  Roles of shape T.
-ROLES = ["a", "b", "ll", "x", "k", "v", "w", "ok", "ov", "k1", "k2", "mv", "s", "u"]
+ROLES = ["a", "b", "ll", "x", "k", "v", "w", "ok", "ov", "k1", "k2", "mv", "s", "u", "ow"]
 T_VARIANTS = {
     #        a        b         ll        x         k         v        w         ok        ov       k1        k2        mv       s        u
-    "t1": ["string", "int32",  "string", "uint8",  "string", "string", "int8",  "string", "uint16", "string", "uint8",  "string", "uint64", "string"],
-    "t2": ["int8",   "uint64", "int32",  "string", "int8",   "int64", "boolean", "uint32", "string", "int16",  "string", "dec2",   "string", "int32"],
-    "t3": ["int64",  "dec2",   "uint64", "boolean", "uint64", "dec2",  "string", "int64",  "enum",  "uint64", "int64",  "boolean", "enum",   "enum"],
-    "t4": ["enum",   "idref",  "enum",   "empty",  "enum",   "idref", "enum",   "enum",   "idref", "enum",   "idref",  "enum",   "idref",  "idref"],
-    "t5": ["u-is",   "u-eu",   "u-is",   "u-is",   "u-is",   "u-eu",  "u-is",   "u-is",   "u-eu",  "u-is",   "enum",   "u-is",   "u-eu",   "u-is"],
-    "t6": ["binary", "boolean", "dec2",  "binary", "boolean", "binary", "uint32", "dec2",  "binary", "boolean", "dec2",  "binary", "boolean", "dec2"],
-    "t7": ["uint16", "int16",  "idref",  "int64",  "idref",  "uint8", "uint16", "idref",  "int32", "uint32", "uint16", "int16",  "int8",   "uint8"],
-    "t8": ["uint32", "string", "u-eu",   "dec2",   "dec2",   "u-is",  "idref",  "u-eu",   "u-is",  "u-eu",   "int32",  "u-eu",   "dec2",   "u-eu"],
-    "t9": ["dec2",   "uint8",  "int8",   "enum",   "int16",  "enum",  "dec2",   "int8",   "int64", "int8",   "boolean", "int64",  "uint16", "int64"],
+    "t1": ["string", "int32",  "string", "uint8",  "string", "string", "int8",  "string", "uint16", "string", "uint8",  "string", "uint64", "string", "string"],
+    "t2": ["int8",   "uint64", "int32",  "string", "int8",   "int64", "boolean", "uint32", "string", "int16",  "string", "dec2",   "string", "int32", "uint8"],
+    "t3": ["int64",  "dec2",   "uint64", "boolean", "uint64", "dec2",  "string", "int64",  "enum",  "uint64", "int64",  "boolean", "enum",   "enum", "enum"],
+    "t4": ["enum",   "idref",  "enum",   "empty",  "enum",   "idref", "enum",   "enum",   "idref", "enum",   "idref",  "enum",   "idref",  "idref", "idref"],
+    "t5": ["u-is",   "u-eu",   "u-is",   "u-is",   "u-is",   "u-eu",  "u-is",   "u-is",   "u-eu",  "u-is",   "enum",   "u-is",   "u-eu",   "u-is", "u-eu"],
+    "t6": ["binary", "boolean", "dec2",  "binary", "boolean", "binary", "uint32", "dec2",  "binary", "boolean", "dec2",  "binary", "boolean", "dec2", "binary"],
+    "t7": ["uint16", "int16",  "idref",  "int64",  "idref",  "uint8", "uint16", "idref",  "int32", "uint32", "uint16", "int16",  "int8",   "uint8", "int64"],
+    "t8": ["uint32", "string", "u-eu",   "dec2",   "dec2",   "u-is",  "idref",  "u-eu",   "u-is",  "u-eu",   "int32",  "u-eu",   "dec2",   "u-eu", "dec2"],
+    "t9": ["dec2",   "uint8",  "int8",   "enum",   "int16",  "enum",  "dec2",   "int8",   "int64", "int8",   "boolean", "int64",  "uint16", "int64", "boolean"],
 }
 OC_VARIANTS = {
-    "o1": ["string", "int32",  "string", "uint8",  "string", "string", "int8",  "string", "uint16", "string", "uint8",  "string", "uint64", "string"],
-    "o2": ["enum",   "uint64", "int32",  "string", "uint32", "idref", "boolean", "enum",  "string", "int16",  "idref",  "dec2",   "enum",   "int32"],
-    "o3": ["u-is",   "dec2",   "u-eu",   "int64",  "u-is",   "u-eu",  "string", "int64",  "u-is",  "enum",   "u-is",   "boolean", "idref",  "u-is"],
-    "o4": ["int64",  "binary", "uint64", "boolean", "int8",  "binary", "dec2",  "idref",  "int64", "uint64", "int64",  "u-eu",   "dec2",   "dec2"],
+    "o1": ["string", "int32",  "string", "uint8",  "string", "string", "int8",  "string", "uint16", "string", "uint8",  "string", "uint64", "string", "int16"],
+    "o2": ["enum",   "uint64", "int32",  "string", "uint32", "idref", "boolean", "enum",  "string", "int16",  "idref",  "dec2",   "enum",   "int32", "enum"],
+    "o3": ["u-is",   "dec2",   "u-eu",   "int64",  "u-is",   "u-eu",  "string", "int64",  "u-is",  "enum",   "u-is",   "boolean", "idref",  "u-is", "u-is"],
+    "o4": ["int64",  "binary", "uint64", "boolean", "int8",  "binary", "dec2",  "idref",  "int64", "uint64", "int64",  "u-eu",   "dec2",   "dec2", "uint64"],
 }
 
 
@@ -88,7 +88,7 @@ def gen_tree():
         s += "    }\n"
         s += "    list l {\n      key \"k\";\n" + leaf("k", r["k"], "      ") + leaf("v", r["v"], "      ")
         s += "      container sub {\n" + leaf("w", r["w"], "        ") + "      }\n    }\n"
-        s += "    list ol {\n      key \"k\";\n      ordered-by user;\n" + leaf("k", r["ok"], "      ") + leaf("v", r["ov"], "      ") + "    }\n"
+        s += "    list ol {\n      key \"k\";\n      ordered-by user;\n" + leaf("k", r["ok"], "      ") + leaf("v", r["ov"], "      ") + "      container sub {\n" + leaf("w", r["ow"], "        ") + "      }\n    }\n"
         s += "    list m {\n      key \"k1 k2\";\n" + leaf("k1", r["k1"], "      ") + leaf("k2", r["k2"], "      ") + leaf("v", r["mv"], "      ") + "    }\n"
         s += "    container st {\n      config false;\n" + leaf("s", r["s"], "      ")
         s += "      list ul {\n" + leaf("u", r["u"], "        ") + "      }\n    }\n"
@@ -126,6 +126,7 @@ def gen_oc():
         s += "      }\n    }\n"
         s += "    container ols {\n      list ol {\n        key \"k\";\n        ordered-by user;\n        leaf k { type leafref { path \"../config/k\"; } }\n"
         s += cs(leaf("k", r["ok"], "          ") + leaf("v", r["ov"], "          "), "", "        ")
+        s += "        container sub {\n" + cs(leaf("w", r["ow"], "            "), "", "          ") + "        }\n"
         s += "      }\n    }\n"
         s += "    container ms {\n      list m {\n        key \"k1 k2\";\n        leaf k1 { type leafref { path \"../config/k1\"; } }\n        leaf k2 { type leafref { path \"../config/k2\"; } }\n"
         s += cs(leaf("k1", r["k1"], "          ") + leaf("k2", r["k2"], "          ") + leaf("v", r["mv"], "          "), "", "        ")
@@ -160,7 +161,7 @@ def variants():
     pools = {t: p for t, (_, p) in TYPES.items()}
     # abstract leaf position -> role
     pos = {"c/a": "a", "c/b": "b", "c/ll": "ll", "c/p/x": "x", "l/k": "k", "l/v": "v", "l/sub/w": "w",
-           "ol/k": "ok", "ol/v": "ov", "m/k1": "k1", "m/k2": "k2", "m/v": "mv", "st/s": "s", "st/ul/u": "u"}
+           "ol/k": "ok", "ol/v": "ov", "ol/sub/w": "ow", "m/k1": "k1", "m/k2": "k2", "m/v": "mv", "st/s": "s", "st/ul/u": "u"}
     return {"variants": v, "pools": pools, "positions": pos,
             "lists": {"l": ["k"], "ol": ["k"], "m": ["k1", "k2"]}, "ordered": ["ol"],
             "leaflists": ["c/ll"], "presence": ["c/p"], "unkeyed": ["st/ul"]}
